@@ -140,8 +140,9 @@ pub fn main(args: &[String]) -> i32 {
             }
             0
         }
+        Some("ty") => crate::oracle::tyws::tool_main(&args[1..]),
         _ => {
-            eprintln!("tools: parse | lua_ast | lsp | nest-thresholds | flow");
+            eprintln!("tools: parse | lua_ast | lsp | nest-thresholds | flow | ty <file.lua> [prelude.lua]");
             2
         }
     }
